@@ -291,4 +291,6 @@ def check():
         samples=[recs[0], recs[1] if len(recs) > 1 else None],
     ))
     rep.assumptions = ["TXTPP_FILE may be the absolute path or the path relative to the base directory (README says absolute, the code passes the latter)"]
+    from cli_engine import cli_layer
+    cli_layer(rep, "C17", workdir("C17-cli"))
     rep.finish()
